@@ -10,7 +10,7 @@ Import ListNotations.
 Local Open Scope N_scope.
 
 Definition rec_inert (s : store) (w : walentry) : Prop :=
-  w_lsn w < nextLSN s /\
+  w_lsn w < nextLSN s /\ (w_op w = OpInsert -> w_cell w <= lastKey s) /\
   exists b n, page_in (forest s) (w_page w) b n /\
     (w_lsn w <= t_lsn n \/
      (w_op w = OpInsert /\ b = true /\ In (w_cell w) (keys_of (all_cells n)))).
@@ -43,8 +43,8 @@ Proof. destruct s as [f lk pt nf nl]. cbn. intros H. f_equal. lia. Qed.
 (* C (one record): an inert record is a no-op of replay *)
 Lemma replay_one_inert s w : Good s -> rec_inert s w -> replay_one s w = RCont s.
 Proof.
-  intros [[Hw Hn Hk] _] (Hlt & b & n & Hpi & Hd). unfold replay_one.
-  rewrite (bump_id s (w_lsn w) Hlt). rewrite (find_node_complete _ _ _ _ Hn Hpi).
+  intros [[Hw Hn Hk] _] (Hlt & Hkb & b & n & Hpi & Hd). unfold replay_one.
+  rewrite (bump_id s (w_lsn w) Hlt), (bkey_id s w Hkb). rewrite (find_node_complete _ _ _ _ Hn Hpi).
   destruct (N.leb_spec (w_lsn w) (t_lsn n)) as [Hle|Hgt]; [reflexivity|].
   destruct Hd as [Hd|(Hop & Hb & Hkey)]; [lia|]. rewrite Hop. subst b. cbn [negb].
   destruct Hpi as (t & Ht & Hin & Hp & Hb).
@@ -66,9 +66,10 @@ Proof.
 Qed.
 
 (* ---------- inertness does not look at dirty flags ---------- *)
-Lemma rec_inert_seq a b w : seq a b -> w_lsn w < nextLSN a -> rec_inert b w -> rec_inert a w.
+Lemma rec_inert_seq a b w : seq a b -> w_lsn w < nextLSN a -> (w_op w = OpInsert -> w_cell w <= lastKey a) ->
+  rec_inert b w -> rec_inert a w.
 Proof.
-  intros [Hf _ _] Hlt (_ & bb & n & Hpi & Hd). split; [exact Hlt|].
+  intros [Hf _ _] Hlt Hkb (_ & _ & bb & n & Hpi & Hd). split; [exact Hlt|]. split; [exact Hkb|].
   destruct (page_in_fclean (forest b) (forest a) _ _ _ (eq_sym Hf) Hpi) as (n' & Hpa & En).
   exists bb, n'. split; [exact Hpa|].
   rewrite <- (erase_lsn n'), <- (erase_cells false n'), En, erase_lsn, erase_cells. exact Hd.
@@ -89,7 +90,8 @@ Lemma inert_touch_gen s pg k g l nl w :
   (forall x, lc_key (g x) = lc_key x) -> Good s -> nextLSN s <= l + 1 -> nextLSN s <= nl -> rec_inert s w ->
   rec_inert (mkStore (touch_forest pg k l g (forest s)) (lastKey s) (ptRoot s) (nextFree s) nl) w.
 Proof.
-  intros Hg [[_ Hn _] [_ Hl]] Hll Hnl' (Hlt & b & n & Hpi & Hd). split; [cbn [nextLSN]; lia|]. cbn [forest].
+  intros Hg [[_ Hn _] [_ Hl]] Hll Hnl' (Hlt & Hkb & b & n & Hpi & Hd). split; [cbn [nextLSN]; lia|].
+  split; [exact Hkb|]. cbn [forest].
   destruct Hpi as (t & Ht & Hin & Hp & Hb).
   assert (G : forall f, In t f -> exists t' n', In t' (touch_forest pg k l g f) /\ In n' (nodes t') /\
                t_off n' = t_off n /\ t_off t' = t_off t /\ t_lsn n <= t_lsn n' /\
@@ -140,13 +142,13 @@ Qed.
 Lemma inert_bt_insert s root v w :
   Good s -> rec_inert s w -> rec_inert (fst (bt_insert s root v)) w.
 Proof.
-  intros [Hs [_ Hl]] (Hlt & b & n & Hpi & Hd). unfold bt_insert, get_tree.
-  destruct (find_root root (forest s)) as [tr|] eqn:Ef; [|cbn [fst]; split; [exact Hlt | eauto]].
+  intros [Hs [_ Hl]] (Hlt & Hkb & b & n & Hpi & Hd). unfold bt_insert, get_tree.
+  destruct (find_root root (forest s)) as [tr|] eqn:Ef; [|cbn [fst]; split; [exact Hlt | split; [exact Hkb | eauto]]].
   destruct (find_root_split _ _ _ Ef) as (l1 & l2 & Hf & Ho & _ & Hrep).
   assert (Htr : In tr (forest s)) by (rewrite Hf; apply in_or_app; right; left; reflexivity).
   destruct (tree_insert ML MI PS MV tr (lastKey s + 1) (nextLSN s) v (nextFree s)) as [[t' nf]|e] eqn:Ei; cbn [fst].
-  2:{ split; [cbn [nextLSN]; lia | cbn [forest]; eauto]. }
-  split; [cbn [nextLSN]; lia|]. cbn [forest]. rewrite Hrep.
+  2:{ split; [cbn [nextLSN]; lia|]. split; [cbn [lastKey]; intros Hins; specialize (Hkb Hins); lia | cbn [forest]; eauto]. }
+  split; [cbn [nextLSN]; lia|]. split; [cbn [lastKey]; intros Hins; specialize (Hkb Hins); lia|]. cbn [forest]. rewrite Hrep.
   destruct Hpi as (t & Ht & Hin & Hp & Hb).
   assert (Hcase : t = tr \/ In t (l1 ++ t' :: l2)).
   { rewrite Hf in Ht. apply in_app_or in Ht as [H|[H|H]]; [right|left; auto|right].
@@ -180,7 +182,7 @@ Proof. intros (t & A & B). exists t. split; [apply in_or_app; left; exact A | ex
 
 Lemma inert_create_page s w : rec_inert s w -> rec_inert (fst (create_page s)) w.
 Proof.
-  intros (Hlt & b & n & Hpi & Hd). unfold create_page. cbn [fst]. split; [exact Hlt|].
+  intros (Hlt & Hkb & b & n & Hpi & Hd). unfold create_page. cbn [fst]. split; [exact Hlt|]. split; [exact Hkb|].
   exists b, n. split; [apply page_in_app; exact Hpi | exact Hd].
 Qed.
 
@@ -189,7 +191,7 @@ Proof. intros H. exact H. Qed.
 
 Lemma inert_flush s w : rec_inert s w -> rec_inert (flush s) w.
 Proof.
-  intros H. apply (rec_inert_seq (flush s) s w (seq_flush s)); [|exact H]. destruct H as [H _]. exact H.
+  intros H. apply (rec_inert_seq (flush s) s w (seq_flush s)); [| |exact H]; destruct H as (H1 & H2 & _); assumption.
 Qed.
 
 (* Good and a log of inert records: closed under the primitives, hence kept by every statement *)
@@ -289,10 +291,10 @@ Qed.
 
 (* ---------- a fresh record is inert in the store its operation produced ---------- *)
 Lemma est_touch b pg key g op bs :
-  Good b -> leaf_has (forest b) pg key ->
+  op <> OpInsert -> Good b -> leaf_has (forest b) pg key ->
   rec_inert (touched b pg key g) (mkWal op (nextLSN b) pg key bs).
 Proof.
-  intros [[_ Hn _] _] (t & l & Ht & Hl & Hp & Hk). split; [cbn; lia|].
+  intros Hop [[_ Hn _] _] (t & l & Ht & Hl & Hp & Hk). split; [cbn; lia|]. split; [cbn; intros; contradiction|].
   cbn [w_page w_lsn touched forest].
   assert (Hpi : page_in (forest b) pg (N.eqb (t_off t) pg) l).
   { exists t. repeat split; auto. apply leaves_sub_nodes. exact Hl. }
@@ -312,7 +314,8 @@ Proof.
   assert (Htr : In tr (forest b)) by (rewrite Hf; apply in_or_app; right; left; reflexivity).
   destruct (tree_insert ML MI PS MV tr (lastKey b + 1) (nextLSN b) v (nextFree b)) as [[t' nf]|e] eqn:Ei;
     [|destruct e; discriminate].
-  intros H. inversion H; subst. clear H. split; [cbn; lia|]. cbn [w_page w_lsn w_op w_cell forest]. rewrite Hrep.
+  intros H. inversion H; subst. clear H. split; [cbn; lia|]. split; [cbn; intros; lia|].
+  cbn [w_page w_lsn w_op w_cell forest]. rewrite Hrep.
   assert (Hin' : In t' (l1 ++ t' :: l2)) by (apply in_or_app; right; left; reflexivity).
   destruct (tree_insert_nodes _ _ _ _ _ _ _ Ei) as (_ & _ & R).
   destruct R as [R|(l & A & B & C & _)].
@@ -328,10 +331,10 @@ Lemma gl_app log ws s : GL log s -> LogInv s ws -> GL (log ++ ws) s.
 Proof. intros [G L] H. split; [exact G | apply Forall_app; split; assumption]. Qed.
 
 Lemma gl_touched log b pg key g op bs :
-  (forall x, lc_key (g x) = lc_key x) -> GL log b -> leaf_has (forest b) pg key ->
+  op <> OpInsert -> (forall x, lc_key (g x) = lc_key x) -> GL log b -> leaf_has (forest b) pg key ->
   GL (log ++ [mkWal op (nextLSN b) pg key bs]) (touched b pg key g).
 Proof.
-  intros Hg [G L] Hh. apply gl_app.
+  intros Hop Hg [G L] Hh. apply gl_app.
   - apply (gl_map log b); [apply good_touch; assumption | | exact L]. intros w. apply inert_touch; assumption.
   - constructor; [|constructor]. apply est_touch; assumption.
 Qed.
@@ -350,7 +353,7 @@ Proof.
   destruct (update_page_table_shape b1 nr name b2 ws' (proj1 H1) Hup) as (pg & key & bs' & Hh & _ & -> & ->).
   change (log ++ mkWal OpInsert lsn off k bs :: [mkWal OpUpdate (nextLSN b1) pg key bs'])
     with (log ++ [mkWal OpInsert lsn off k bs] ++ [mkWal OpUpdate (nextLSN b1) pg key bs']).
-  rewrite app_assoc. apply gl_touched; [reflexivity | exact H1 | exact Hh].
+  rewrite app_assoc. apply gl_touched; [discriminate | reflexivity | exact H1 | exact Hh].
 Qed.
 
 Lemma log_st_update log b name rowid cols vals b1 ws :
@@ -358,14 +361,14 @@ Lemma log_st_update log b name rowid cols vals b1 ws :
 Proof.
   intros HG Hst. destruct (st_update_shape _ _ _ _ _ _ _ (proj1 HG) Hst) as [(-> & ->)|(pg & bs & Hh & _ & -> & ->)].
   - rewrite app_nil_r. exact HG.
-  - apply gl_touched; [reflexivity | exact HG | exact Hh].
+  - apply gl_touched; [discriminate | reflexivity | exact HG | exact Hh].
 Qed.
 
 Lemma log_st_delete log b name rowid b1 ws :
   GL log b -> st_delete b name rowid = (b1, Ok ws) -> GL (log ++ ws) b1.
 Proof.
   intros HG Hst. destruct (st_delete_shape _ _ _ _ _ Hst) as (pg & Hh & -> & ->).
-  apply gl_touched; [reflexivity | exact HG | exact Hh].
+  apply gl_touched; [discriminate | reflexivity | exact HG | exact Hh].
 Qed.
 
 Lemma log_insert_rows rows : forall log b name cols batch n b' B m,
